@@ -178,14 +178,21 @@ Write(k, v) ==
         /\ Log([a |-> IF v = Tomb THEN "Delete" ELSE "Put", k |-> k, v |-> v, rot |-> st.rot])
   /\ UNCHANGED <<lv, latest, flush, compQ, comp, nextTid, ckpts, pendRm, saves, files, returned, rd, snapAt, nrd, nck, nre, nrt, zombies, ngc, dropped, nfl, objs>>
 
-\* Get: two captures (level list, memtable list) with background steps possible in between
-GetBegin(k) ==
+\* Get: two captures (level list, memtable list) with background steps possible in between.
+\* `at` names where the real reader is held while the background steps of the behaviour run: "between" = between the
+\* memtable read and the capture of the level list (db.go), "snap" = inside memtable.List.Get, holding its snapshot of
+\* the memtable list but before reading the first memtable. What the read must return does not depend on it (the
+\* value is history only: not part of rd, so not part of the state space).
+GetHolds == {"between", "snap"}
+ScanHolds == {"between", "returned", "mid"}
+GetBeginAt(k, at) ==
   /\ ~rd.on /\ nrd < MaxReads /\ nrd' = nrd + 1
   /\ rd' = IF Dev_GetLevelsFirst
            THEN [on |-> TRUE, kind |-> "get", arg |-> {k}, capMem |-> <<>>, capLv |-> lv]
            ELSE [on |-> TRUE, kind |-> "get", arg |-> {k}, capMem |-> mem, capLv |-> <<>>]
-  /\ Log([a |-> "GetBegin", k |-> k])
+  /\ Log([a |-> "GetBegin", k |-> k, at |-> at])
   /\ UNCHANGED <<seq, mem, lv, latest, wal, flushQ, flush, compQ, comp, nextTid, ckpts, pendRm, saves, files, returned, oracle, snapAt, nops, nck, nre, nrt, zombies, ngc, dropped, nfl, objs>>
+GetBegin(k) == \E at \in GetHolds : GetBeginAt(k, at)
 
 ReadValue == LET k == CHOOSE k \in rd.arg : TRUE
                  m == IF Dev_GetLevelsFirst THEN mem ELSE rd.capMem
@@ -197,13 +204,16 @@ GetEnd ==
   /\ Log([a |-> "GetEnd", k |-> CHOOSE k \in rd.arg : TRUE, demanded |-> oracle[CHOOSE k \in rd.arg : TRUE], predicted |-> ReadValue])
   /\ UNCHANGED <<seq, mem, lv, latest, wal, flushQ, flush, compQ, comp, nextTid, ckpts, pendRm, saves, files, returned, oracle, snapAt, nops, nrd, nck, nre, nrt, zombies, ngc, dropped, nfl, objs>>
 
-ScanBegin(P) ==
+\* Scan holds: "between" = between the two captures inside DB.ScanPrefix; "returned" = ScanPrefix has returned its
+\* iterator, nothing pulled yet; "mid" = the consumer has pulled the first entry (or reached the end) and pauses.
+ScanBeginAt(P, at) ==
   /\ ~rd.on /\ nrd < MaxReads /\ nrd' = nrd + 1
   /\ rd' = IF Dev_GetLevelsFirst
            THEN [on |-> TRUE, kind |-> "scan", arg |-> P, capMem |-> <<>>, capLv |-> lv]
            ELSE [on |-> TRUE, kind |-> "scan", arg |-> P, capMem |-> mem, capLv |-> <<>>]
-  /\ Log([a |-> "ScanBegin", p |-> P])
+  /\ Log([a |-> "ScanBegin", p |-> P, at |-> at])
   /\ UNCHANGED <<seq, mem, lv, latest, wal, flushQ, flush, compQ, comp, nextTid, ckpts, pendRm, saves, files, returned, oracle, snapAt, nops, nck, nre, nrt, zombies, ngc, dropped, nfl, objs>>
+ScanBegin(P) == \E at \in ScanHolds : ScanBeginAt(P, at)
 
 ScanValue == LET m == IF Dev_GetLevelsFirst THEN mem ELSE rd.capMem
                  l == IF Dev_GetLevelsFirst THEN rd.capLv ELSE lv
